@@ -9,6 +9,7 @@ import TantivyModel.Proofs.GrammarCharsNested
 import TantivyModel.Proofs.GrammarCharsBoost
 import TantivyModel.Proofs.GrammarCharsText
 import TantivyModel.Proofs.GrammarFoldSafe
+import TantivyModel.Proofs.GrammarFoldSafeN
 import TantivyModel.Model.Grammar.Agree
 /-!
 # C16 — The query parser is total and implements its documented grammar
@@ -305,9 +306,9 @@ theorem C16_strict_panic_witness :
    prefixes, bracketed and elastic ranges, sets, `*`, `name:*`, `NOT x`.
    (5) boosts on words, phrases, parenthesised lists, bracketed ranges and sets, and `name:( … )`
    groups (`C16_print_parse_boosted`). (6) compositions with the fold-layer theorems: from the text
-   of an AND/OR chain resp. a marker list to its meaning (`C16_text_precedence`, `C16_text_markers`).
-   Still open in the ∀ form: boosts after elastic ranges, `*`, `name:*` and `NOT x`, escapes inside
-   unquoted words, single-quoted phrases, regex leaves, negative numbers, `*` as a range bound, blanks inside elastic ranges, unicode blanks as separators. -/
+   of an AND/OR chain resp. a marker list to its meaning (`C16_text_precedence`, `C16_text_precedence_markers`, `C16_text_markers`).
+   Still open in the ∀ form: escapes inside unquoted words, regex leaves, negative numbers, boosts
+   after `NOT (group)`, `*` as a range bound, blanks inside elastic ranges, unicode blanks as separators. -/
 /-- **print/parse at leaf level, for all words**: the strict parser (with or without the guard)
     reads a word of ASCII letters and digits that is not `OR`/`AND`/`NOT`/`IN` as the unfielded,
     unquoted literal with exactly that text -/
@@ -355,9 +356,11 @@ theorem C16_print_parse_nested (guard : Bool) (lead : Nat) (occ : Option Occur) 
 
 /-- **print/parse with boosts**: the items of a list (at the top level and inside parenthesised
     lists, to any depth) may carry a boost `^digits[.digits]` when the boosted operand is a plain
-    word, a quoted phrase (any characters, optional slop / prefix star), either with a field prefix,
-    a parenthesised list, a bracketed range or a set, the latter two also with a field prefix
-    (`WFB true`); every other item is a well-formed operand of `C16_print_parse_nested`,
+    word, a double- or single-quoted phrase (any characters, optional slop / prefix star), either with
+    a field prefix, `*`, `name:*`, a parenthesised list, a bracketed range or a set, the latter two
+    also with a field prefix, or `NOT x` of such a leaf (`BoostKind`; the boost then applies to the
+    `NOT` clause) (`WFB true`); single-quoted phrases `'…'` (printed with `\'` and `\\` escapes) are
+    operands as well; every other item is a well-formed operand of `C16_print_parse_nested`,
     a parenthesised list of such items, `name:( … )` of such items (read as the list's tree with
     `set_default_field name`; it may be boosted too), or `NOT` of an unboosted one (`WFB false`). The strict parser
     reads the printed text as `rewrite_ast` of the tree the structure denotes, in which a boosted
@@ -435,6 +438,57 @@ theorem C16_text_precedence {T : Type} (guard : Bool) (lead k : Nat) (o : Opd) (
       obtain ⟨x, hx, rfl⟩ := hy
       exact hdr x hx)
     simpa [List.map_map, Function.comp_def] using this
+
+/-- **from the text to the documents, chains with `-` operands**: for every layout of
+    `[-]x₀ op₁ [-]x₁ … opₙ [-]xₙ` (`AND`/`OR` keywords, `n ≥ 1`, items of `C16_print_parse_boosted`)
+    the strict parser accepts the text and the tree it returns means the OR over the maximal
+    AND-runs, where a run holds when it has an unmarked operand, all its unmarked operands hold and
+    none of its `-` operands holds (`runsN`, the reading of `C16_precedence_markers`: an operand
+    bound to AND keeps MUST_NOT inside its run, a lone `-x` between ORs contributes nothing) —
+    whenever the operands resolve and `rewrite_ast` is safe on the operands' own trees. -/
+theorem C16_text_precedence_markers {T : Type} (guard : Bool) (lead k : Nat) (n0 : Bool) (o : Opd)
+    (nops : List (BinOp × Bool × Opd × Nat × Nat)) (hne : nops ≠ [])
+    (ho : ∃ b, WFB b o) (hm : ∀ x ∈ nops, ∃ b, WFB b x.2.2.1)
+    (m : Mode) (res : CLeaf → LAst T) (v : T → Bool)
+    (hd0 : isDead (toLogical m res o.leaf) = false)
+    (hdr : ∀ x ∈ nops, isDead (toLogical m res x.2.2.1.leaf) = false)
+    (hs0 : safeWith m false o.leaf = true)
+    (hsr : ∀ x ∈ nops, safeWith m false x.2.2.1.leaf = true) :
+    ∃ t, parseStrictWith guard (printList lead (negMark n0) o (nopItems nops) k []) = .tree t
+      ∧ semAst m res v t
+        = runsN (!n0) (litv n0 (semAst m res v o.leaf))
+            (nops.map fun x => (x.1, x.2.1, semAst m res v x.2.2.1.leaf)) := by
+  have hsafe : safeWith m false (listTree (negMark n0) o (nopItems nops)) = true := by
+    rw [listTree_chainN n0 o nops hne, lenientFold_map_rawOf _ (by rfl)]
+    exact chainN_safe m n0 o.leaf _ hs0 (by
+      intro y hy
+      simp only [List.mem_map] at hy
+      obtain ⟨x, hx, rfl⟩ := hy
+      exact hsr x hx)
+  refine ⟨rewrite (listTree (negMark n0) o (nopItems nops)), ?_, ?_⟩
+  · refine C16_print_parse_boosted guard lead (negMark n0) o (nopItems nops) k ho ?_
+    intro it hi
+    simp only [nopItems, List.mem_map] at hi
+    obtain ⟨x, hx, rfl⟩ := hi
+    exact hm x hx
+  · rw [C16_rewrite_preserves_sem m res v _ hsafe, listTree_chainN n0 o nops hne]
+    have := C16_precedence_markers m res v n0 o.leaf (nops.map fun x => (x.1, x.2.1, x.2.2.1.leaf)) hd0 (by
+      intro y hy
+      simp only [List.mem_map] at hy
+      obtain ⟨x, hx, rfl⟩ := hy
+      exact hdr x hx)
+    simpa [List.map_map, Function.comp_def] using this
+
+/-- `a AND -b  OR 'c d'`: the layout and the operands of such a chain (the last one a single-quoted phrase) -/
+example :
+    let nops : List (BinOp × Bool × Opd × Nat × Nat) :=
+      [(.and, true, wordOpd ['b'], 0, 0), (.or, false, phraseSOpd ['c', ' ', 'd'] .none, 1, 0)]
+    printList 0 (negMark false) (wordOpd ['a']) (nopItems nops) 0 []
+      = ['a', ' ', 'A', 'N', 'D', ' ', '-', 'b', ' ', ' ', 'O', 'R', ' ', '\'', 'c', ' ', 'd', '\'']
+    ∧ safeWith .orDefault false (phraseSOpd ['c', ' ', 'd'] .none).leaf = true
+    ∧ WFB false (phraseSOpd ['c', ' ', 'd'] .none)
+    ∧ runsN (!false) (litv false true) [(.and, true, false), (.or, false, false)] = true := by
+  exact ⟨by decide, rfl, .phraseS _ _ trivial, rfl⟩
 
 /-- **from the text to the documents, marker lists**: for every layout of `[+|-]x₀ [+|-]x₁ … [+|-]xₙ`
     (juxtaposed, `n ≥ 1`, every `xᵢ` an item of `C16_print_parse_boosted` whose tree is a leaf: a
